@@ -9,10 +9,11 @@ import Paho.Driver.Dispatch
 import Paho.Driver.Helpers
 import Paho.Driver.Threads
 import Paho.Driver.Ws
+import Paho.Driver.WsReader
 open Paho.Driver
 
 def drivers : List (String × Drv) :=
-  [("trie", trieDrv), ("mid", midDrv), ("validate", validateDrv), ("session", sessionDrv), ("session-inv", sessionInvDrv), ("props", propsDrv), ("codec", codecDrv), ("decode", decodeDrv), ("reader", readerDrv), ("loopforever", lfDrv), ("dispatch", dispatchDrv), ("helpers", helpersDrv), ("threads", threadsDrv), ("ws", wsDrv), ("wsbad", wsDrv)]
+  [("trie", trieDrv), ("mid", midDrv), ("validate", validateDrv), ("session", sessionDrv), ("session-inv", sessionInvDrv), ("props", propsDrv), ("codec", codecDrv), ("decode", decodeDrv), ("reader", readerDrv), ("loopforever", lfDrv), ("dispatch", dispatchDrv), ("helpers", helpersDrv), ("threads", threadsDrv), ("ws", wsDrv), ("wsbad", wsDrv), ("wsreader", wsReaderDrv)]
 
 def main (args : List String) : IO UInt32 := do
   match args with
